@@ -72,3 +72,22 @@ def swapped_calls(prog, only_callee=None):
                 hits = found if hits is None else hits & found
             for i, j in sorted(hits or ()):
                 yield m, q, c, cands[0][1], i, j
+
+
+def bind_args(call, funcdef, bound_method=None):
+    """param name -> argument expression for a call of `funcdef` (positional and keyword; defaults not filled in).
+    bound_method: True to skip `self`/`cls` (default: skip it unless the call passes it explicitly)."""
+    params = [a.arg for a in funcdef.args.args]
+    if params and params[0] in ("self", "cls"):
+        explicit = bool(call.args) and _tail(call.args[0]) in ("self", "cls")
+        if bound_method if bound_method is not None else not explicit:
+            params = params[1:]
+    out = {}
+    for pn, a in zip(params, call.args):
+        if isinstance(a, ast.Starred):
+            break
+        out[pn] = a
+    for k in call.keywords:
+        if k.arg:
+            out[k.arg] = k.value
+    return out
